@@ -113,7 +113,7 @@ def ioread_map(ctx, lexpr):
                 return None
 
             S = sim.Sim([lexpr], hooks={"call": hook, "opaque": opaque},
-                        inline=lambda a, b: b.path == "parse::error::Error::io")
+                        inline=lambda a, b: b.crate == lexpr.name and b.file.endswith("parse/error.rs"))
             ps = [p for p in S.run(f) if p.end == "return"]
             outs = set()
             for p in ps:
